@@ -242,6 +242,71 @@ theorem fieldvec_merge_comm {FI FL : Type} [AddCommMonoid FI] [AddCommMonoid FL]
     FieldVec.merge x y = FieldVec.merge y x := by
   cases x <;> cases y <;> simp [FieldVec.merge, merge_comm]
 
+/-- the kind and length of a `Poplar1FieldVec` -/
+def fvShape {FI FL : Type} : FieldVec FI FL → Bool × Nat
+  | .inner v => (false, v.length)
+  | .leaf v => (true, v.length)
+
+theorem merge_shape {FI FL : Type} [Add FI] [Add FL] (a b r : FieldVec FI FL) (h : FieldVec.merge a b = some r) :
+    fvShape b = fvShape a ∧ fvShape r = fvShape a := by
+  cases a <;> cases b <;> simp only [FieldVec.merge, Option.map_eq_some_iff] at h
+  · obtain ⟨v, hv, rfl⟩ := h
+    unfold mergeVector at hv
+    split at hv
+    · cases hv
+    · rename_i hl
+      simp only [ne_eq, Decidable.not_not] at hl
+      injection hv with hv; subst hv
+      simp [fvShape, hl]
+  · cases h
+  · cases h
+  · obtain ⟨v, hv, rfl⟩ := h
+    unfold mergeVector at hv
+    split at hv
+    · cases hv
+    · rename_i hl
+      simp only [ne_eq, Decidable.not_not] at hl
+      injection hv with hv; subst hv
+      simp [fvShape, hl]
+
+/-- **Poplar1 `unshard` accepts only aggregate shares of the kind and length the aggregation
+    parameter dictates** (leaf iff the level is the last one; one entry per candidate prefix) -/
+theorem unshard_requires_matching_shares {FI FL : Type} [Add FI] [Add FL] [Zero FI] [Zero FL]
+    (isLeaf : Bool) (len : Nat) (shares : List (FieldVec FI FL)) (r : FieldVec FI FL)
+    (h : FieldVec.aggregate isLeaf len shares = some r) :
+    (∀ s ∈ shares, fvShape s = (isLeaf, len)) ∧ fvShape r = (isLeaf, len) := by
+  unfold FieldVec.aggregate at h
+  have key : ∀ (l : List (FieldVec FI FL)) (a r : FieldVec FI FL), fvShape a = (isLeaf, len) →
+      l.foldl (fun acc s => acc.bind fun a => FieldVec.merge a s) (some a) = some r →
+      (∀ s ∈ l, fvShape s = (isLeaf, len)) ∧ fvShape r = (isLeaf, len) := by
+    intro l
+    induction l with
+    | nil => intro a r ha h; simp at h; subst h; exact ⟨by simp, ha⟩
+    | cons s rest ih =>
+      intro a r ha h
+      rw [List.foldl_cons] at h
+      simp only [Option.bind_some] at h
+      cases hm : FieldVec.merge a s with
+      | none =>
+        rw [hm] at h
+        have : ∀ l : List (FieldVec FI FL), l.foldl (fun acc s => acc.bind fun a => FieldVec.merge a s) none = none := by
+          intro l; induction l with
+          | nil => rfl
+          | cons _ _ ih => simpa using ih
+        rw [this] at h; cases h
+      | some a' =>
+        rw [hm] at h
+        obtain ⟨e1, e2⟩ := merge_shape a s a' hm
+        obtain ⟨f1, f2⟩ := ih a' r (by rw [e2, ha]) h
+        refine ⟨?_, f2⟩
+        intro x hx
+        rcases List.mem_cons.mp hx with rfl | hx
+        · rw [e1, ha]
+        · exact f1 x hx
+  apply key shares (FieldVec.zero isLeaf len) r _ h
+  unfold FieldVec.zero fvShape
+  cases isLeaf <;> simp
+
 /-! non-vacuity -/
 example : aggregate [0, 0] [[1, 2], [3, 4], [5, 6]] = some ([9, 12] : List ℕ) := by decide
 example : aggregate [0, 0] [[1, 2], [3]] = (none : Option (List ℕ)) := by decide
